@@ -16,7 +16,8 @@ def run(tier, replay):
         mc = vlib.model_check("MC_Conn", "MC_Conn", workers=2, heap="2g")
         vlib.model_check("MC_Conn", "MC_Conn_impl", expect_violation=True, workers=2, heap="2g")
         paths, total, gens = [], 0, []
-        for mode in (["single", "scripts"] if tier == "quick" else ["single", "scripts", "pairs"]):
+        # (pairs of mutations are explored by C04 and C05; for the six headers the thorough tier adds all CORS configurations instead)
+        for mode in ["single", "scripts"]:
             p, n, g = C.generate(mode, sc)
             paths.append(p); total += n; gens.append(g)
         cases = C.concat(paths, sc.path("all_cases.ndjson"))
